@@ -420,6 +420,7 @@ impl<'a> Gen<'a> {
                     "str" => if wrong { *self.rng.pick(&[Ty::Int, Ty::Nil, Ty::Tab, Ty::Real]) } else { Ty::Str },
                     "table" => if wrong { *self.rng.pick(&[Ty::Int, Ty::Nil, Ty::Str]) } else { Ty::Tab },
                     "nilable_i64" => *self.rng.pick(&[Ty::Nil, Ty::Int, Ty::Real, Ty::Str]),
+                    "nilable_str" => *self.rng.pick(&[Ty::Nil, Ty::Str, Ty::Str, Ty::Int, Ty::Tab]),
                     _ => self.any_ty(),
                 };
                 self.expr(cx, t, 1)
@@ -663,6 +664,16 @@ impl<'a> Gen<'a> {
                 vec![setg(&format!("g{}", self.rng.below(5)), read(&format!("{t}.{}", self.rng.pick(&["a", "b", "key"]))))]
             }
             24 if self.prof.stdlib > 0 => self.std_stmt(cx, ed),
+            26 | 27 if self.prof.tables > 0 && !cx.of_ty(Ty::Tab).is_empty() => {
+                // a string-keyed field written twice (each write names it by a fresh string object) with garbage in between, then read
+                let tabs = cx.of_ty(Ty::Tab);
+                let t = self.rng.pick(&tabs).name.clone();
+                let f = *self.rng.pick(&["a", "b", "key"]);
+                let (g1, g2) = (format!("g{}", self.rng.below(5)), format!("g{}", self.rng.below(5)));
+                vec![setv(&format!("{t}.{f}"), int(self.rng.below(9) as i64)), setg(&g1, strlit("filler string one")),
+                     setv(&format!("{t}.{f}"), int(10 + self.rng.below(9) as i64)), setg(&g1, strlit("filler string two")),
+                     setg(&g2, read(&format!("{t}.{f}")))]
+            }
             25 if depth > 0 && self.w(3) && (!cx.in_fn || (self.prof.host == 0 && self.prof.stdlib == 0)) => {
                 // Abort ends the whole program (successfully), wherever it is executed -- except below a host function that
                 // re-entered the interpreter (Appendix B: there it only ends the callee), so it is generated in functions and
@@ -682,7 +693,8 @@ impl<'a> Gen<'a> {
         // mostly small tables; sometimes long ones with many tied keys (sort stability, min/max tie-breaking)
         let big = self.w(2);
         let n = if big { 21 + self.rng.below(28) } else { self.rng.below(5) };
-        let items: Vec<C> = (0..n).map(|_| int(self.rng.below(if big { 40 } else { 6 }) as i64)).collect();
+        // mostly integers; in small tables now and then a nil (an entry whose value is nil is an entry like any other)
+        let items: Vec<C> = (0..n).map(|_| if !big && self.rng.below(7) == 0 { nil() } else { int(self.rng.below(if big { 40 } else { 6 }) as i64) }).collect();
         let tabs = cx.of_ty(Ty::Tab);
         let mut pre = vec![];
         let t = if !big && !tabs.is_empty() && self.w(4) { read(&self.rng.pick(&tabs).name.clone()) } else if !self.prof.safe_arrays { card("Array", items) } else {
@@ -750,7 +762,9 @@ impl<'a> Gen<'a> {
             Var { name: self.fresh("a"), ty }
         }).collect();
         let ret = *self.rng.pick(&[Ty::Int, Ty::Int, Ty::Int, Ty::Tab, Ty::Str, Ty::Real]);
-        let name = format!("f{idx}");
+        // in the `errors` profile half of the functions live in two submodules (function numbers restart in every module;
+        // calls use the full path from the root, which resolves from anywhere)
+        let name = if self.prof.errors > 0 && self.rng.below(2) == 0 { format!("m{}.f{idx}", idx % 2) } else { format!("f{idx}") };
         // parameters are locals; the runtime places the last declared parameter in the lowest slot
         let mut cx = Ctx { scopes: vec![params.iter().rev().cloned().collect()], captured: vec![], in_fn: true, ret, loop_depth: 0, cond_depth: 0 };
         let mut body = vec![];
